@@ -34,6 +34,10 @@ def main(argv):
         mod = importlib.import_module('nfcsa.rules.' + prop.lower())
         prog = Program()
         report = Report(prop, prog)
+        for unit, mapping in prog.renamed:
+            print('NOTE: local variables of %s differ from the reference tree by renaming only (%s); reports use the reference names'
+                  % (unit, ', '.join('%s was %s' % (a, b) for a, b in sorted(mapping.items()))))
+        report.stats['renamed_locals'] = len(prog.renamed)
         report.stats['modules'] = len(prog.modules)
         report.stats['classes'] = len(prog.classes)
         report.stats['functions'] = len(prog.functions)
